@@ -87,6 +87,23 @@ the function's value; a function that fails (`Err`) reports none (the cells writ
 only read through handles that exist after a success). -/
 abbrev Stores := List (String × UInt64)
 
+/-- The stores a CALLEE performed, as they appear in the caller's list: each place is prefixed by the text of the
+caller's argument through which the callee reached the structure (`find_content(data, ..)` stores into
+`data.data_start` of ITS parameter `data`; for the caller that is `<its argument> / data.data_start`; for a method call
+on `self` the label is `self`). -/
+def Stores.via (arg : String) (st : Stores) : Stores := st.map fun pv => (arg ++ " / " ++ pv.1, pv.2)
+
+/-- `std::borrow::Cow<'a, T>`: the value, and whether it is borrowed from the archive's table or owned by the handle
+(`ZipFile::drop` drains the entry only for `Owned`, i.e. for the streaming reader). -/
+inductive Cow (α : Type) where
+  | Borrowed (a : α)
+  | Owned (a : α)
+
+/-- `&*cow` -/
+def Cow.get {α : Type} : Cow α → α
+  | .Borrowed a => a
+  | .Owned a => a
+
 /-- `result::InvalidPassword` -/
 structure InvalidPassword where
   deriving DecidableEq, Repr
